@@ -2,6 +2,8 @@ import ConfModel.Driver.Common
 import ConfModel.Model.Trie
 import ConfModel.Spec.Glob
 import ConfModel.Driver.C05
+import ConfModel.Model.Marked
+import ConfModel.Spec.RunVerdict
 namespace ConfModel.Driver.C08
 open Lean ConfModel.Driver ConfModel.Trie ConfModel.Glob
 
@@ -12,6 +14,92 @@ def join (p : List String) : String := "/".intercalate p
 def isSp (c : Char) : Bool := c == ' ' || c == '\t' || c == '\n' || c == '\r' || c.toNat == 11 || c.toNat == 12
 def trim (s : String) : String :=
   String.ofList ((s.toList.dropWhile isSp).reverse.dropWhile isSp).reverse
+
+/-! ### op "marked": the known-failing / known-flaky patterns at work in `testResults` -/
+
+open ConfModel.Report ConfModel.RunVerdict in
+/-- one line of the call script: "<kind> <name>[,<name>…]" -/
+def markedOps (code : String) : Option (List Marked.Op) :=
+  match code.splitOn " " with
+  | [k, rest] =>
+    let ns := rest.splitOn ","
+    match k with
+    | "pass" => some (ns.map (Marked.Op.outcome · false .none))
+    | "assert" => some (ns.map (Marked.Op.outcome · false .assertion))
+    | "clienterr" => some (ns.map (Marked.Op.outcome · false .clientError))
+    | "neither" => some (ns.map (Marked.Op.outcome · false .other))
+    | "setup" => some (ns.map (Marked.Op.outcome · true .other))
+    | "cnr" => some (ns.map (Marked.Op.outcome · true .couldNotRun))
+    | "start" => some [Marked.Op.start ns]
+    | "remaining" => some [Marked.Op.remaining ns]
+    | "sideband" => some (ns.map (Marked.Op.sideband · "peer feedback"))
+    | _ => none
+  | _ => none
+
+open ConfModel.Report ConfModel.RunVerdict in
+/-- what happened to case `n`, in the words of the property: the last outcome stored for it wins;
+`failRemaining` only speaks about a case nothing is known of yet -/
+def markedKind (ops : List Marked.Op) (n : String) : Kind :=
+  ops.foldl (fun k op => match op with
+    | .outcome m s f =>
+      if m != n then k
+      else if s then (if f == Fail.couldNotRun then Kind.couldNotRun else Kind.setupErr)
+      else if f == Fail.none then Kind.pass
+      else if f == Fail.assertion then Kind.assertFail else Kind.clientErr
+    | .start ns => if ns.contains n then Kind.setupErr else k
+    | .remaining ns => if ns.contains n && k == Kind.missing then Kind.noResult else k
+    | .sideband _ _ => k) Kind.missing
+
+def markedNames (ops : List Marked.Op) : List String :=
+  (ops.flatMap fun op => match op with
+    | .outcome m _ _ => [m]
+    | .start ns => ns
+    | .remaining ns => ns
+    | .sideband m _ => [m]).eraseDups
+
+open ConfModel.Report ConfModel.RunVerdict in
+def handleMarked (inp impl : Json) : Verdict :=
+  if bool (field impl "invalid") then
+    { agree := true, holds := true, nontrivial := false, cls := "invalid-input" } else
+  if !(isNull (field impl "panic")) then
+    { agree := false, holds := false, why := "panic: " ++ str (field impl "panic") } else
+  match ((strList (field inp "ops")).map markedOps).mapM id with
+  | none => bad "marked: malformed call script"
+  | some opss =>
+  let ops := opss.flatten
+  let failing := (strList (field inp "failing")).map split
+  let flaky := (strList (field inp "flaky")).map split
+  let names := markedNames ops
+  -- the property's reading: a case is known-failing / known-flaky iff its name globs such a pattern
+  let isF (n : String) : Bool := failing.any (fun p => globMatch p (split n))
+  let isK (n : String) : Bool := flaky.any (fun p => globMatch p (split n))
+  let ambiguous := names.any (fun n => isF n && isK n)
+  let cases : List Case := names.map fun n =>
+    { name := n, kind := markedKind ops n
+      mark := if isF n then .failing else if isK n then .flaky else .unmarked
+      feedback := ops.any (fun op => match op with | .sideband m _ => m == n | _ => false) }
+  let wantFailed := sortStrings (specFailedNames cases)
+  let wantInfo := sortStrings (specInfoNames cases)
+  let iFailed := sortStrings (strList (field impl "failedNames"))
+  let iInfo := sortStrings (strList (field impl "infoNames"))
+  let iOk := bool (field impl "ok")
+  let unparsed := strList (field impl "unparsed")
+  -- the model
+  let m := Marked.markedReport failing flaky names.length ops
+  let agree := unparsed.isEmpty && iOk == m.ok && iFailed == sortStrings m.failedNames && iInfo == sortStrings m.infoNames
+  let model := Json.mkObj [("ok", m.ok), ("failedNames", toJson (sortStrings m.failedNames)), ("infoNames", toJson (sortStrings m.infoNames))]
+  -- run() rejects pattern lists under which a name is both: nothing is claimed for those
+  if ambiguous then { agree := agree, holds := true, nontrivial := false, model := model, cls := "ambiguous" } else
+  let marked := cases.filter (fun c => c.mark != .unmarked)
+  let why :=
+    if iInfo != wantInfo then
+      "marked: INFO (failed as expected) names " ++ toString iInfo ++ " but the cases that ran, failed and glob-match a known-failing/known-flaky pattern are " ++ toString wantInfo
+    else if iFailed != wantFailed then
+      "marked: FAILED names " ++ toString iFailed ++ " but by the glob verdicts on the names they are " ++ toString wantFailed
+    else ""
+  { agree := agree, holds := why.isEmpty, model := model, why := why,
+    nontrivial := !marked.isEmpty && cases.any (fun c => c.feedback || c.kind != .pass),
+    cls := if marked.any (fun c => c.feedback) then "feedback-on-marked" else if marked.isEmpty then "none-marked" else "marked" }
 
 def handle : Handler := fun op inp impl =>
   match op with
@@ -81,6 +169,7 @@ def handle : Handler := fun op inp impl =>
         model := toJson (asSet ps),
         why := if holds then "" else "patterns supplied but not honoured: " ++ toString ((plain ++ fromFiles).filter (!implP.contains ·)) }
     | none => { agree := false, holds := holds, why := "model: unreadable file" }
+  | "marked" => handleMarked inp impl
   | _ => bad ("unknown op " ++ op)
 
 end ConfModel.Driver.C08
